@@ -5,6 +5,7 @@ package main
 // most 5 loggers, state = (tree shape, format of every logger).
 
 import (
+	"os"
 	"encoding/json"
 	"errors"
 	"fmt"
@@ -378,6 +379,14 @@ func c11run(c *Ctx) {
 	maxDepth := 4
 	if c.Thorough() {
 		maxDepth = 12
+	}
+	if os.Getenv("VERIF_PASS") == "nocolor" {
+		// the pass whose process has NO_COLOR set: the statement lets nothing but the mode calls decide the format
+		maxDepth = 3
+		if c.Thorough() {
+			maxDepth = 5
+		}
+		c.Info("depth_in_the_pass_with_NO_COLOR_set", maxDepth)
 	}
 	// The BFS itself runs over the pure reference machine (identical in every
 	// worker, so the de-duplication is global); every transition of that graph
